@@ -6,7 +6,7 @@
 From Coq Require Import ZArith List Bool String.
 From MxlBase Require Import ListX.
 From Core Require Import Sort GenSortFacts FnLib Model Cache Query.
-From Edit Require Import GenEditFacts ModelSM SMProofs SMPin.
+From Edit Require Import GenEditFacts ExpectedFacts ModelSM SMProofs SMPin.
 Import ListNotations.
 
 Theorem C03_facts_pinned :
@@ -22,16 +22,37 @@ Theorem C03_facts_pinned :
 Proof. split; vm_compute; reflexivity. Qed.
 Print Assumptions C03_facts_pinned.
 
-(** after ANY finite sequence of public mutators and queries the memoised cache is either absent
-    or exactly what _create_cache computes from the current content *)
+(** the batch mutators have the expected form (ExpectedFacts.v: plain folds in the snapshot,
+    validate-first after fixes/C03-batch-edits-atomic.diff), ArityMismatchError is raised by
+    _create_cache only -- no mutator checks the arity of the function it is given -- and there
+    before the dependency sort *)
+Theorem C03_batch_facts_pinned :
+  (forall b : batch, batch_form b = C03_expected_batch)
+  /\ arity_raisers = ["_create_cache"%string]
+  /\ arity_checked_before_sort = true.
+Proof. split; [intros []; vm_compute; reflexivity|split; vm_compute; reflexivity]. Qed.
+Print Assumptions C03_batch_facts_pinned.
+
+(** after ANY finite sequence of public single-item mutators, batch mutators and queries the
+    memoised cache is either absent or exactly what _create_cache computes from the current content *)
 Theorem C03_cache_always_coherent :
   forall (h : list op) (c : cache),
     s_cache (run_history h) = Some c ->
     create_cache FnLib.fsem FnLib.fsemN gen_sort_facts (s_m (run_history h)) = Val c.
-Proof. exact (history_coherent (all_invalidate_from_pin C03_facts_pinned)). Qed.
+Proof. exact (history_coherent_create (all_invalidate_from_pin C03_facts_pinned)). Qed.
 Print Assumptions C03_cache_always_coherent.
 
-(** ... hence every query answers exactly as a freshly built model with the same content *)
+(** ... including the arity sanity check that precedes it: a memoised cache exists only for a
+    content in which every function has the arity of its argument list *)
+Theorem C03_cache_always_coherent_arity :
+  forall (h : list op) (c : cache),
+    s_cache (run_history h) = Some c ->
+    build_cache (s_m (run_history h)) = Val c /\ arity_all_ok (s_m (run_history h)) = true.
+Proof. exact (history_coherent_arity (all_invalidate_from_pin C03_facts_pinned)). Qed.
+Print Assumptions C03_cache_always_coherent_arity.
+
+(** ... hence every query (get_fluxes and get_stoichiometries included: the memoised coefficient
+    tables are never stale) answers exactly as a freshly built model with the same content *)
 Theorem C03_history_equals_fresh :
   forall (h : list op) (q : query),
     snd (ask (run_history h) q) = snd (ask (fresh (run_history h)) q).
@@ -47,3 +68,27 @@ Example C03_nonvacuous :
   snd (ask (run_history h) (QArgs None 0%Z)) = Answer (APairs [(0%N, 0%Z); (12%N, 1%Z); (11%N, 2%Z)]).
 Proof. cbv zeta. split; vm_compute; reflexivity. Qed.
 Print Assumptions C03_nonvacuous.
+
+(** non-vacuity for the enlarged alphabet: a named coefficient (parameter 11 on variable 16) is read
+    by get_stoichiometries, the cache is filled, update_parameters changes 11, and the table shows
+    the new coefficient (cf. seeded/C03-1); a derived quantity of wrong arity is ACCEPTED by
+    add_derived (no mutator checks arities), every later query reports the arity error, scaling an
+    assigned parameter is rejected, and removing the derived quantity heals the model *)
+Example C03_nonvacuous_batch_stoich_arity :
+  let h := [Bat (AddPars [(11%N, Plain 2%Z); (17%N, IA 0%N [11%N])]); Bat (AddVars [(12%N, Plain 1%Z); (16%N, Plain 3%Z)]);
+            Mut (AddRxn 14%N 4%N [11%N; 12%N] [(12%N, CStat (-1)%Z); (16%N, CDyn 0%N [11%N])]);
+            Ask (QStoich None 0%Z); Bat (UpdatePars [(11%N, Plain 5%Z)])] in
+  snd (ask (run_history [Bat (AddPars [(11%N, Plain 2%Z)]); Bat (AddVars [(12%N, Plain 1%Z); (16%N, Plain 3%Z)]);
+                         Mut (AddRxn 14%N 4%N [11%N; 12%N] [(12%N, CStat (-1)%Z); (16%N, CDyn 0%N [11%N])])])
+           (QStoich None 0%Z))
+  = Answer (ATable [(12%N, [(14%N, (-1)%Z)]); (16%N, [(14%N, 2%Z)])])
+  /\ s_cache (run_history h) = None
+  /\ snd (ask (run_history h) (QStoich None 0%Z)) = Answer (ATable [(12%N, [(14%N, (-1)%Z)]); (16%N, [(14%N, 5%Z)])])
+  /\ snd (ask (run_history h) (QFluxes None 0%Z)) = Answer (APairs [(14%N, 5%Z)])
+  /\ snd (step (run_history h) (Mut (AddDer 13%N 2%N [11%N]))) = Accepted
+  /\ snd (ask (run_history (h ++ [Mut (AddDer 13%N 2%N [11%N])])) QIc) = Answer (AErr EType)
+  /\ snd (step (run_history (h ++ [Mut (AddDer 13%N 2%N [11%N])])) (Mut (ScalePar 17%N 2%Z))) = Rejected EType
+  /\ snd (ask (run_history (h ++ [Mut (AddDer 13%N 2%N [11%N]); Mut (RemoveDer 13%N)])) QIc)
+     = Answer (APairs [(12%N, 1%Z); (16%N, 3%Z)]).
+Proof. cbv zeta. repeat split; vm_compute; reflexivity. Qed.
+Print Assumptions C03_nonvacuous_batch_stoich_arity.
